@@ -63,6 +63,7 @@ TABLE = {
     "../seeded/C10-3/patch.diff": ("contracts.c10", "_apply_mst_to_source_fanout", None),
     "../seeded/C01-3/patch.diff": ("contracts.c10", "CSEOptimizer.optimize", None),
     "../seeded/C12-4/patch.diff": ("contracts.c10", "CSEOptimizer.optimize", None),
+    "../seeded/C04-5/patch.diff": ("contracts.c04", "_find_first_memory_consumer", None),
     "../seeded/C01-4/patch.diff": ("contracts.c07", "_configure_decider", "operation = <"),
 }
 RUNNER = r'''
